@@ -92,7 +92,7 @@ open_("C12", "D15", "C05/base_commit_sha", ["C03/unsound-note@f.txt:6", "C03/uns
       "configuration: notes.rewriteRef=refs/notes/* with notes.rewrite.rebase=true; history: feature commit appends 2 AI lines to f.txt, upstream inserts 2 lines at the top, `git rebase main` => git itself copies the old note verbatim to the rewritten commit and git-ai then skips that commit ('already has a note'): base_commit_sha names the old commit, lines 6-7 (a person's) are listed as AI and the AI lines 8-9 are human",
       "c12.notes_rewrite_ref_copies_note_verbatim", ["setting:rewriteref"], affects=[])
 open_("C13", "D33", "C13/lost@g.txt:2", [],
-      "history: feature = [S1 inserts 2 lines at the top of f.txt; S2 inserts a line into g.txt]; upstream adds another file; `git rebase -i main` with the two picks swapped (no conflict; likewise `squash` / `fixup` when the agent lines are in the folded, non-last commit) => in wrapper mode every AI line keeps its session, with git-ai installed as git hooks S2's line g.txt:2 is human",
+      "history: feature = [S1 inserts 2 lines at the top of f.txt; S2 inserts a line into g.txt]; upstream adds another file; `git rebase -i main` with the two picks swapped (no conflict; likewise `squash` / `fixup`: a chain keeps only the attribution of its last original commit, so agent lines of an earlier member of the chain become human - chains whose agent lines are all in the chain's last commit agree with the wrapper and stay in random exploration) => in wrapper mode every AI line keeps its session, with git-ai installed as git hooks S2's line g.txt:2 is human",
       "c13.interactive_rebase_reorder_in_hooks_mode", ["todo_reorder", "todo_squash", "todo_fixup", "todo_edit"], affects=[])
 open_("C06", "D9", "C06/stdout@--html-path status", [],
       "command line: `git --html-path status` (likewise --man-path / --info-path followed by a subcommand) => plain git prints the documentation path and exits 0; through the proxy the query option is dropped and `status` runs (different stdout). The pinned suite asserts the current behaviour (git_cli_arg_parsing::meta_html_path_then_real_command_meta_is_dropped_current_behavior), so the repair is not an unedited-suite-compatible fix",
@@ -177,6 +177,8 @@ fixed("C12", "D46", "^fix: notes search pins --no-color", "with color.ui=always 
 fixed("C03", "D47", "^fix: blaming an empty commit range", "main holds S1's lines 6-7 right below a person's line 5; on a branch the person (no agent) inserts a token into line 5 and deletes line 4; `git merge --squash br`; commit => the person's line (now line 4) was committed as S1's: the target side was blamed over the empty range X..X, for which git silently blames the work tree, so S1's line numbers were off by the lines removed above them", "c03.squash_person_modifies_line_above_ai_block")
 fixed("C03", "D50", "^fix: a line rewritten on the merged side", "main holds session S2's lines 4-5 of f.txt (`# tokA ..`, `tokB ..`); on a branch session S1 replaces them by three lines, one of which also starts with `# `; `git merge --squash br`; commit => S1's line 5 was committed as S2's: on the favoured (target) side of merge_attributions_favoring_first the `# ` left over from S2's old line owned the rewritten line (placeholder author had the same timestamp) and outranked the branch side", "c03.squash_other_session_replaces_lines_with_shared_prefix")
 fixed("C17", "D52", "^fix: file names that start with a double quote", "a tracked file whose name begins and ends with a double quote and contains no whitespace (`\"x\"`, `\"\"`) gets an AI line: the path line was written unquoted, every reader strips one quote from each end of a line that starts with a quote, and the note read back listed another file name (serialize -> parse was not the identity; the AI line was reported human)", "c17.file_name_wrapped_in_double_quotes")
+fixed("C20", "D72", "^fix: checkpoint paths containing", "<repo>/vendor/inner is an independent repository nested in <repo>; an agent first reports an edit of <repo>/a.txt, then a report started in the inner repository names `../../dir/b.txt` (a file of the outer repository, by a relative path): exit 0 and `Cross-repo checkpoint ... completed`, but dir/b.txt was recorded nowhere (the un-normalised name vendor/inner/../../dir/b.txt matched nothing once the working log already held an agent checkpoint; the same for `sub/../a.txt` inside one repository)", "c20.cross_repo_report_with_dotdot_path_after_earlier_agent_report")
+fixed("C01", "D73", "^fix: status post-filter lists untracked", "one agent report names 1001 new files under a directory that does not exist in HEAD; commit => the note listed no file at all and every line was blamed on a person (above 1000 paths `git status` runs without pathspecs and collapses the wholly untracked directory into one `? gen/` record that no reported path matched; with 1000 files every file was recorded)", "c01.agent_creates_more_than_1000_files_in_a_new_directory")
 open_("C20", "D53", "C20/edited-file-not-recorded-in-its-repository@nested-repo", [],
       "payload: agent-v1 ai_agent report, hook started in <repo>, edited_filepaths = [<repo>/vendor/inner/a.txt] where vendor/inner is an independent repository nested in the outer work tree => exit 0, but the edit is recorded neither in the inner repository (which contains the file) nor anywhere else (files of sibling repositories are routed to their own repository; nested ones are taken for files of the outer work tree and then dropped)",
       "c20.file_of_nested_repository_edited_from_outer_repository", ["probe:nested-repo"], affects=[])
